@@ -125,7 +125,7 @@ impl Zero for Element {
     }
 
     fn is_zero(&self) -> bool {
-        self.inner.is_zero()
+        self.is_identity()
     }
 }
 
